@@ -393,7 +393,9 @@ func (b *Binlog) RunPollLoop() error {
 				continue
 			} else if err != nil {
 				b.logger.Error("livesql: failed to parse rows event", "error", err)
-				continue
+				// We don't know which rows changed, so every live query on the
+				// table has to be invalidated rather than the event be dropped.
+				u = &update{table: string(inner.Table.Table), err: err}
 			}
 
 			b.delayMu.Lock()
